@@ -45,10 +45,15 @@ structure FlowTable where
   inputAssignments : List (String × List String × List String)
   bodySpool : String
   adapterFlows : List (String × String × String)
+  /-- per adapter method: identifiers tested by the condition under which its options struct is built -/
+  optionGuards : List (String × List String)
+  /-- (method, option field, value expression) -/
+  optionValues : List (String × String × String)
 
 def genTable : FlowTable :=
   { inputAssignments := Gen.MigratorFlow.inputAssignments, bodySpool := Gen.MigratorFlow.bodySpool,
-    adapterFlows := Gen.MigratorFlow.adapterFlows }
+    adapterFlows := Gen.MigratorFlow.adapterFlows, optionGuards := Gen.MigratorFlow.adapterOptionGuards,
+    optionValues := Gen.MigratorFlow.adapterOptionValues }
 
 /-- Where an attribute comes from, which `PutObjectInput` field carries it, and which sink of the
 storage call it has to reach on the single-put path and on the multipart path. -/
@@ -58,27 +63,54 @@ structure Route where
   putSink : String
   mpuMethod : String
   mpuSink : String
+  /-- the option field of the storage call's options struct that carries it ("" = a plain argument) -/
+  optField : String := ""
 
 def route : Field → Route
-  | .content => ⟨"tempFile", "Body", "arg:data", "UploadPart", "arg:data"⟩
-  | .contentType => ⟨"srcObject.ContentType", "ContentType", "arg:contentType", "CreateMultipartUpload", "arg:contentType"⟩
-  | .cacheControl => ⟨"srcObject.Metadata.CacheControl", "CacheControl", "opt:Metadata.CacheControl", "CreateMultipartUpload", "opt:Metadata.CacheControl"⟩
-  | .contentDisposition => ⟨"srcObject.Metadata.ContentDisposition", "ContentDisposition", "opt:Metadata.ContentDisposition", "CreateMultipartUpload", "opt:Metadata.ContentDisposition"⟩
-  | .contentEncoding => ⟨"srcObject.Metadata.ContentEncoding", "ContentEncoding", "opt:Metadata.ContentEncoding", "CreateMultipartUpload", "opt:Metadata.ContentEncoding"⟩
-  | .contentLanguage => ⟨"srcObject.Metadata.ContentLanguage", "ContentLanguage", "opt:Metadata.ContentLanguage", "CreateMultipartUpload", "opt:Metadata.ContentLanguage"⟩
-  | .expires => ⟨"srcObject.Metadata.Expires", "Expires", "opt:Metadata.Expires", "CreateMultipartUpload", "opt:Metadata.Expires"⟩
-  | .websiteRedirect => ⟨"srcObject.Metadata.WebsiteRedirectLocation", "WebsiteRedirectLocation", "opt:Metadata.WebsiteRedirectLocation", "CreateMultipartUpload", "opt:Metadata.WebsiteRedirectLocation"⟩
-  | .userMetadata => ⟨"srcObject.Metadata.UserMetadata", "Metadata", "opt:Metadata.UserMetadata", "CreateMultipartUpload", "opt:Metadata.UserMetadata"⟩
-  | .tags => ⟨"tags", "Tagging", "opt:Tags", "CreateMultipartUpload", "opt:Tags"⟩
-  | .storageClass => ⟨"srcObject.StorageClass", "StorageClass", "opt:StorageClass", "CreateMultipartUpload", "opt:StorageClass"⟩
+  | .content => ⟨"tempFile", "Body", "arg:data", "UploadPart", "arg:data", ""⟩
+  | .contentType => ⟨"srcObject.ContentType", "ContentType", "arg:contentType", "CreateMultipartUpload", "arg:contentType", ""⟩
+  | .cacheControl => ⟨"srcObject.Metadata.CacheControl", "CacheControl", "opt:Metadata.CacheControl", "CreateMultipartUpload", "opt:Metadata.CacheControl", "Metadata"⟩
+  | .contentDisposition => ⟨"srcObject.Metadata.ContentDisposition", "ContentDisposition", "opt:Metadata.ContentDisposition", "CreateMultipartUpload", "opt:Metadata.ContentDisposition", "Metadata"⟩
+  | .contentEncoding => ⟨"srcObject.Metadata.ContentEncoding", "ContentEncoding", "opt:Metadata.ContentEncoding", "CreateMultipartUpload", "opt:Metadata.ContentEncoding", "Metadata"⟩
+  | .contentLanguage => ⟨"srcObject.Metadata.ContentLanguage", "ContentLanguage", "opt:Metadata.ContentLanguage", "CreateMultipartUpload", "opt:Metadata.ContentLanguage", "Metadata"⟩
+  | .expires => ⟨"srcObject.Metadata.Expires", "Expires", "opt:Metadata.Expires", "CreateMultipartUpload", "opt:Metadata.Expires", "Metadata"⟩
+  | .websiteRedirect => ⟨"srcObject.Metadata.WebsiteRedirectLocation", "WebsiteRedirectLocation", "opt:Metadata.WebsiteRedirectLocation", "CreateMultipartUpload", "opt:Metadata.WebsiteRedirectLocation", "Metadata"⟩
+  | .userMetadata => ⟨"srcObject.Metadata.UserMetadata", "Metadata", "opt:Metadata.UserMetadata", "CreateMultipartUpload", "opt:Metadata.UserMetadata", "Metadata"⟩
+  | .tags => ⟨"tags", "Tagging", "opt:Tags", "CreateMultipartUpload", "opt:Tags", "Tags"⟩
+  | .storageClass => ⟨"srcObject.StorageClass", "StorageClass", "opt:StorageClass", "CreateMultipartUpload", "opt:StorageClass", "StorageClass"⟩
 
-/-- The attribute flows from the source object into the destination storage call, on both paths. -/
-def flows (t : FlowTable) (f : Field) : Bool :=
+/-- The options struct of `method` is built whenever the attribute is present: the condition guarding
+its construction tests the value that carries the attribute (or there is no condition). Without this
+an attribute is lost exactly when it is the only one set. -/
+def guardOk (t : FlowTable) (method optField : String) : Bool :=
+  optField == "" ||
+  match t.optionGuards.find? (·.1 == method) with
+  | none => false
+  | some (_, g) =>
+    g.contains "*" ||
+    (match t.optionValues.find? (fun v => v.1 == method && v.2.1 == optField) with
+     | some (_, _, v) => g.contains v
+     | none => false)
+
+/-- `migrateSingleObject` puts the attribute, read from the right place of the source object, into the
+field of `s3.PutObjectInput` that carries it. -/
+def assigned (t : FlowTable) (f : Field) : Bool :=
   let r := route f
   t.inputAssignments.any (fun a => a.1 == r.input && a.2.1.contains r.src) &&
-  t.adapterFlows.contains ("PutObject", r.input, r.putSink) &&
-  t.adapterFlows.contains (r.mpuMethod, r.input, r.mpuSink) &&
   (f != .content || t.bodySpool == "tempFile<-readers[0]")
+
+/-- Single-put path (objects up to the uploader's part size): adapter `PutObject`. -/
+def flowsPut (t : FlowTable) (f : Field) : Bool :=
+  let r := route f
+  assigned t f && t.adapterFlows.contains ("PutObject", r.input, r.putSink) && guardOk t "PutObject" r.optField
+
+/-- Multipart path (larger objects): adapter `CreateMultipartUpload` (attributes) / `UploadPart` (content). -/
+def flowsMultipart (t : FlowTable) (f : Field) : Bool :=
+  let r := route f
+  assigned t f && t.adapterFlows.contains (r.mpuMethod, r.input, r.mpuSink) && guardOk t r.mpuMethod r.optField
+
+/-- The attribute flows from the source object into the destination storage call, on both paths. -/
+def flows (t : FlowTable) (f : Field) : Bool := flowsPut t f && flowsMultipart t f
 
 def migratedFields (t : FlowTable) : List Field := observableFields.filter (flows t)
 
